@@ -59,6 +59,31 @@ func (r *Run) markShared(v Value) {
 	r.walkValue(v, walkObj)
 }
 
+func (r *Run) markOwned(v Value) {
+	seen := map[*Object]bool{}
+	var walkObj func(o *Object)
+	walkObj = func(o *Object) {
+		if o == nil || seen[o] {
+			return
+		}
+		seen[o] = true
+		if o.Kind == KGlobal || o.Kind == KRType {
+			return
+		}
+		o.Owned = true
+		for _, pv := range o.P {
+			r.walkValue(pv, walkObj)
+		}
+		if o.Map != nil {
+			for _, e := range o.Map.Entries {
+				r.walkValue(e.Key, walkObj)
+				walkObj(e.Elem)
+			}
+		}
+	}
+	r.walkValue(v, walkObj)
+}
+
 func (r *Run) walkValue(v Value, f func(o *Object)) {
 	switch x := v.(type) {
 	case Ptr:
@@ -99,8 +124,17 @@ func (r *Run) guardFor(o *Object) (lockKey, bool) {
 		match := obj == o
 		if !match {
 			if pv, ok := obj.P[0]; ok {
-				if p, ok := pv.(Ptr); ok && p.Obj == o {
-					match = true
+				if p, ok := pv.(Ptr); ok && p.Obj != nil {
+					if p.Obj == o {
+						match = true
+					} else if p.Obj.Map != nil {
+						// the value cells of a guarded map are guarded with it
+						for _, e := range p.Obj.Map.Entries {
+							if e.Elem == o {
+								match = true
+							}
+						}
+					}
 				}
 			}
 		}
